@@ -18,6 +18,16 @@ pub trait W: RealNumber + 'static {
     const VAR_ACC: f64;
     /// largest |mean|/std for which the spread-relative accuracy clause is demanded
     const VAR_RMAX: f64;
+    /// smallest positive (subnormal) number of the width: the absolute rounding error of one
+    /// operation whose result falls into the subnormal range is at most SUB/2 (it is below 1e-44,
+    /// so it has no effect on any value of the lattice fills)
+    const SUB: f64;
+    /// successor of `x` in the width (`x` is a finite value of the width; built through `to_bits`)
+    fn next_up(x: f64) -> f64;
+    /// predecessor of `x` in the width
+    fn next_down(x: f64) -> f64 {
+        -Self::next_up(-x)
+    }
 }
 
 impl W for f64 {
@@ -26,6 +36,17 @@ impl W for f64 {
     const TINY: f64 = f64::MIN_POSITIVE;
     const VAR_ACC: f64 = 1e-6;
     const VAR_RMAX: f64 = 1.0e8;
+    const SUB: f64 = 5e-324;
+    fn next_up(x: f64) -> f64 {
+        assert!(x.is_finite());
+        if x == 0.0 {
+            f64::from_bits(1)
+        } else if x > 0.0 {
+            f64::from_bits(x.to_bits() + 1)
+        } else {
+            f64::from_bits(x.to_bits() - 1)
+        }
+    }
 }
 
 impl W for f32 {
@@ -34,6 +55,18 @@ impl W for f32 {
     const TINY: f64 = f32::MIN_POSITIVE as f64;
     const VAR_ACC: f64 = 1e-2;
     const VAR_RMAX: f64 = 4.0e3;
+    const SUB: f64 = 1.401298464324817e-45;
+    fn next_up(x: f64) -> f64 {
+        let y = x as f32;
+        assert!(y.is_finite() && y as f64 == x, "{} is not a value of f32", x);
+        (if y == 0.0 {
+            f32::from_bits(1)
+        } else if y > 0.0 {
+            f32::from_bits(y.to_bits() + 1)
+        } else {
+            f32::from_bits(y.to_bits() - 1)
+        }) as f64
+    }
 }
 
 #[inline]
@@ -209,12 +242,19 @@ pub enum FillSet {
     LiteWide,
     /// the 4 wide index-coded sign patterns only (long family, structural group: values are just labels)
     CodedWide,
+    /// adjacent floats (round 7): per centre x every assignment of {x, next_up(x), next_down(x)} to the
+    /// entries when r*c <= sigma_max, else the structured assignments of `adjacent_pattern`
+    Adjacent { sigma_max: usize },
 }
 
 impl FillSet {
     /// Does the fill set belong to the long family (round 2)?
     pub fn is_long(self) -> bool {
         matches!(self, FillSet::LiteWide | FillSet::CodedWide)
+    }
+    /// Does the fill set belong to the adjacent-floats family (round 7)?
+    pub fn is_adjacent(self) -> bool {
+        matches!(self, FillSet::Adjacent { .. })
     }
 }
 
@@ -227,6 +267,102 @@ pub fn n_fills(r: usize, c: usize, fs: FillSet) -> usize {
         FillSet::Full { sigma_max } => 20 + if r * c <= sigma_max { pow3(r * c) } else { 0 },
         FillSet::Lite | FillSet::LiteWide => 6,
         FillSet::CodedWide => 4,
+        FillSet::Adjacent { sigma_max } => ADJ_CENTRES * adjacent_per_centre(r * c, sigma_max),
+    }
+}
+
+// ------------------------------------------------------------------------------------------------
+// adjacent floats (round 7): values that are distinct but one or two ulps apart
+
+/// Number of centres x of the adjacent-floats family.
+pub const ADJ_CENTRES: usize = 7;
+
+/// VERIF_SEED scales the centres by an exact power of two (the ulp structure is unchanged).
+fn adj_scale(seed: u64) -> f64 {
+    [1.0, 2.0, 4.0, 0.5, 8.0, 16.0, 32.0, 64.0][(seed % 8) as usize]
+}
+
+/// Centre `k` in the width: 0.3, 1, -0.7, the largest value below 2, 2.5, 1e-17 (each rounded to the
+/// width) and 0 (whose neighbours are the two smallest subnormals).
+pub fn adj_centre<T: W>(k: usize, seed: u64) -> f64 {
+    let x = match k {
+        0 => rt::<T>(0.3),
+        1 => 1.0,
+        2 => rt::<T>(-0.7),
+        3 => T::next_down(2.0),
+        4 => 2.5,
+        5 => rt::<T>(1e-17),
+        _ => 0.0,
+    };
+    x * adj_scale(seed)
+}
+
+/// The alphabet of centre `k`: [x, next_up(x), next_down(x)], built exactly in the width.
+pub fn adj_alphabet<T: W>(k: usize, seed: u64) -> [f64; 3] {
+    let x = adj_centre::<T>(k, seed);
+    [x, T::next_up(x), T::next_down(x)]
+}
+
+/// Assignments per centre: every one (3^n) when n <= sigma_max, else the structured ones.
+pub fn adjacent_per_centre(n: usize, sigma_max: usize) -> usize {
+    if n <= sigma_max {
+        pow3(n)
+    } else {
+        6 + 2 * n
+    }
+}
+
+/// Letter (0 = x, 1 = up, 2 = down) of position `pos` (row-major) under assignment `code`.
+/// Exhaustive: base-3 digits of the code. Structured (n > sigma_max): 3 phases of the cyclic
+/// pattern over the row-major position, 3 phases of the cyclic pattern over i + 2 j, then x
+/// everywhere except one entry moved up / down, at every position.
+fn adjacent_letter(code: usize, pos: usize, i: usize, j: usize, n: usize, exhaustive: bool) -> usize {
+    if exhaustive {
+        (code / pow3(pos)) % 3
+    } else if code < 3 {
+        (pos + code) % 3
+    } else if code < 6 {
+        (i + 2 * j + code) % 3
+    } else {
+        let k = code - 6;
+        if k % n == pos {
+            1 + k / n
+        } else {
+            0
+        }
+    }
+}
+
+/// (centre index, assignment code) of fill `idx`: the centres are the outer dimension.
+pub fn adj_split(idx: usize, n: usize, sigma_max: usize) -> (usize, usize) {
+    let per = adjacent_per_centre(n, sigma_max);
+    (idx / per, idx % per)
+}
+
+/// Position (row-major) of the moved entry when fill `idx` is one of the structured single-deviant
+/// assignments (n > sigma_max, x everywhere except one entry); None for every other assignment.
+pub fn adj_single_deviant(idx: usize, n: usize, sigma_max: usize) -> Option<usize> {
+    let (_, code) = adj_split(idx, n, sigma_max);
+    if n > sigma_max && code >= 6 {
+        Some((code - 6) % n)
+    } else {
+        None
+    }
+}
+
+/// The adjacent-floats fill `idx` of an r x c operand in the width T (values of the width, held in f64).
+pub fn adjacent_fill<T: W>(idx: usize, r: usize, c: usize, sigma_max: usize, seed: u64) -> M {
+    let n = r * c;
+    let (k, code) = adj_split(idx, n, sigma_max);
+    let al = adj_alphabet::<T>(k, seed);
+    M::new(r, c, |i, j| al[adjacent_letter(code, i * c + j, i, j, n, n <= sigma_max)])
+}
+
+/// Any fill in the width T: the lattice fills rounded to the width, the adjacent floats built in it.
+pub fn fill_t<T: W>(idx: usize, r: usize, c: usize, fs: FillSet, seed: u64) -> M {
+    match fs {
+        FillSet::Adjacent { sigma_max } => adjacent_fill::<T>(idx, r, c, sigma_max, seed),
+        _ => fill(idx, r, c, fs, seed).round::<T>(),
     }
 }
 
@@ -236,6 +372,7 @@ fn offset_pattern(i: usize, j: usize) -> f64 {
 
 pub fn fill(idx: usize, r: usize, c: usize, fs: FillSet, seed: u64) -> M {
     match fs {
+        FillSet::Adjacent { .. } => panic!("adjacent floats depend on the width: use fill_t"),
         FillSet::CodedWide => coded_w(r, c, idx, seed),
         FillSet::Lite | FillSet::LiteWide => match idx {
             0..=3 if fs == FillSet::LiteWide => coded_w(r, c, idx, seed),
@@ -268,6 +405,7 @@ pub fn fill(idx: usize, r: usize, c: usize, fs: FillSet, seed: u64) -> M {
 
 pub fn fill_name(idx: usize, fs: FillSet) -> String {
     match fs {
+        FillSet::Adjacent { .. } => format!("adjacent-floats #{}", idx),
         FillSet::CodedWide => format!("wide-index-coded/{}", SIGN_NAMES[idx]),
         FillSet::Lite | FillSet::LiteWide => match idx {
             0..=3 if fs == FillSet::LiteWide => format!("wide-index-coded/{}", SIGN_NAMES[idx]),
@@ -378,11 +516,25 @@ pub fn long_deep() -> bool {
     LONG_DEEP.with(|c| c.get())
 }
 
+thread_local! {
+    static ADJ_CASE: std::cell::Cell<bool> = const { std::cell::Cell::new(false) };
+}
+
+/// Mark the current execution as a case of the adjacent-floats family (round 7): the input class of
+/// every site key it reports gets the suffix `/adjacent` (a defect that only shows on values one or
+/// two ulps apart - a tolerance where the formula is exact - is a different defect than one of the
+/// lattice space). Set at the start of every execution.
+pub fn set_adjacent_case(adj: bool) {
+    ADJ_CASE.with(|c| c.set(adj));
+}
+
 fn class_key(class: &str) -> String {
     // `large-offset` (cancellation in the one-pass variance) is a property of the values, not of the
     // length: the same defect at any length, so the key is shared with the short space
     if LONG_CASE.with(|c| c.get()) && class != "large-offset" {
         format!("{}/long", class)
+    } else if ADJ_CASE.with(|c| c.get()) {
+        format!("{}/adjacent", class)
     } else {
         class.to_string()
     }
